@@ -28,7 +28,7 @@ def sample_for(descs, order, ci, depth=0):
         return None
     if kind == "tstr":
         return "t"
-    if kind in ("bstr", "hex"):
+    if kind in ("bstr", "hex", "rawBstr"):
         return "ff00"
     if kind == "emptyBstr":
         return ""
